@@ -20,6 +20,7 @@ pub mod c03;
 pub mod c04;
 pub mod c05;
 pub mod c07;
+pub mod c08;
 pub mod c09;
 pub mod c10;
 pub mod c14;
@@ -32,5 +33,7 @@ pub mod c18;
 pub mod c19;
 pub mod c20;
 
+#[cfg(not(kani))]
+pub mod probes;
 #[cfg(not(kani))]
 pub mod registry;
